@@ -539,6 +539,13 @@ def r11(ctx):
     from . import C12
     ctx.share("C10.R11", C12.r4, "C12.R4", floor=3)
 
+def r12(ctx):
+    """"a declined request changes nothing in the store": the completion handler of the live actor registers the peer as useful
+    only after a successful session (LiveActor::on_sync_finished evaluated on every result class)"""
+    from . import livefw
+    livefw.check_sync_finished(ctx, "C10.R12", "useful-peer")
+    ctx.floor("C10.R12", 24)
+
 def run(ctx):
     ctx.run_rule("C10.R1", r1)
     ctx.run_rule("C10.R2", r2)
@@ -550,3 +557,4 @@ def run(ctx):
     ctx.run_rule("C10.R9", r9)
     ctx.run_rule("C10.R10", r10)
     ctx.run_rule("C10.R11", r11)
+    ctx.run_rule("C10.R12", r12)
